@@ -95,8 +95,43 @@ def ble_time_bounds(ctx: Ctx) -> None:
                           f"(timeout {c16.TIMEOUT}s" + (", disconnect_timeout 0.5s)" if name == "device_connect" else ")"), {"spec": None, "ble_op": name}, trace=o["trace"][-30:])
 
 
+def ble_drop_reasons(ctx: Ctx) -> None:
+    """A Bluetooth request is in flight and the proxy reports that the peripheral dropped, with every possible reason code: the call ends at
+    once with an error from the library's hierarchy -- building the error text from an unknown code must not let a raw error escape."""
+    from aioesphomeapi.core import APIConnectionError
+    from vf.props import c16
+
+    res = ctx.res
+    idx = 0
+    for oi, name in enumerate(c16.OPS):
+        for reason in c16.DROP_REASONS:
+            if not (ctx.thorough or name in ("read", "pair") or (reason + oi) % 4 == 0):
+                continue
+            idx += 1
+            if not ctx.mine(idx):
+                continue
+            o = c16.run_case({"ops": [{"op": name, "addr": c16.A, "handle": 1}], "replies": [["conn", c16.A, 0, reason]], "answer_disconnect": False})
+            if o.get("error"):
+                res.inconclusive.append(f"BLE drop scenario: {o['error']}")
+                continue
+            rec = o["recs"][0]
+            res.evaluations += 1
+            res.count("baseline/ble-drop-reasons")
+            res.count("oracle_evaluations")
+            res.sigs.add(f"ble-drop/{name}/{reason}")
+            res.count(f"observed/c09/ble-drop/{name}/{rec.outcome}/{type(rec.exc).__name__ if rec.exc else None}")
+            case = {"spec": None, "ble_op": name, "reason": reason}
+            if not rec.done:
+                res.violation(f"C09/hang/{name}", f"{name}: proxy reported a drop (reason {reason}) but the call is still pending", case)
+            elif rec.outcome == "raised" and not isinstance(rec.exc, APIConnectionError):
+                res.violation(f"C09/raw-exception/{name}/{type(rec.exc).__name__}", f"{name}: proxy reported a drop with reason {reason}; the call raised {rec.exc!r}", case, trace=o["trace"][-20:])
+            elif rec.t_ret - rec.t_call > 0.02 + 1e-6 and name != "device_connect":
+                res.violation(f"C09/over-bound/{name}", f"{name}: drop reported after 0.01 s, call ended after {rec.t_ret - rec.t_call:.4f}s", case)
+
+
 def shard(ctx: Ctx) -> None:
     ble_time_bounds(ctx)
+    ble_drop_reasons(ctx)
     rejection_then_hangup(ctx)
     sweep.standard_sweep(ctx, PROP)
     sweep.same_turn_pairs_sweep(ctx, PROP)
